@@ -78,10 +78,11 @@ PROPS = {
         "lanes": [
             {"lane": "addr", "quick": 6000, "thorough": 150000},
             {"lane": "resolve", "quick": 800, "thorough": 20000},
+            {"lane": "registry", "quick": 4000, "thorough": 60000},
         ],
         "trusted_base": [STDLIB, "net/url, terraform-registry-address, terraform-svchost (IDNA) and go-versions are parameters: on the lane the model receives the real library's answers as an oracle table for exactly the strings it asks about; URL printing (URL.String) is not modelled, so the print/parse round trip of remote addresses is established by the lane's oracle on real values, not by a theorem"],
         "assumptions": ["open findings F17, F18, F33-F36 (sub-paths that URL escaping rewrites, RawPath or fragment or trailing-slash package path combined with a sub-path, constructor inputs the parsers never produce, '@'/newline in a final registry sub-path) are reported as KNOWN-FINDING by mechanism"],
-        "explanation": "C06_local_roundtrip, C06_local_resolve_canonical / _roundtrip (the repaired local resolution always yields a canonical, re-parseable local address: F16), C06_subpath_split_roundtrip_partial / _url (printing pkg//sub?query splits back; counterexamples C06_cex_split_* for the excluded shapes), C06_normalize_idem. Tie: 'addr' lane compares ParseRemoteSource / MakeRemoteSource / ParseLocalSource / ValidSubPath with the model (front end + URL record from the real net/url) and applies the round-trip oracle Parse(String(x)) == x to every accepted and every derived value (relative resolution, Versioned, FinalSourceAddr, SourceAddr), plus 'equal iff prints the same'.",
+        "explanation": "Registry.lean models ParseRegistrySource / ParseFinalRegistrySource (incl. the hand-written matcher for the pattern ^(.+)@([^/]+)(//(.+))?$), their String methods and the dispatch of ParseSource / ParseFinalSource, with regaddr.ParseModuleSource and versions.ParseVersion as oracle parameters; the 'registry' lane asks the model which strings it needs parsed, answers with the real libraries and compares results and dispatch. C06_local_roundtrip, C06_local_resolve_canonical / _roundtrip (the repaired local resolution always yields a canonical, re-parseable local address: F16), C06_subpath_split_roundtrip_partial / _url (printing pkg//sub?query splits back; counterexamples C06_cex_split_* for the excluded shapes), C06_normalize_idem. Tie: 'addr' lane compares ParseRemoteSource / MakeRemoteSource / ParseLocalSource / ValidSubPath with the model (front end + URL record from the real net/url) and applies the round-trip oracle Parse(String(x)) == x to every accepted and every derived value (relative resolution, Versioned, FinalSourceAddr, SourceAddr), plus 'equal iff prints the same'.",
     },
     "C07": {
         "lanes": [
@@ -116,6 +117,7 @@ PROPS = {
             {"lane": "unpack", "quick": 1500, "thorough": 30000},
             {"lane": "bundle", "quick": 1500, "thorough": 30000},
             {"lane": "pack", "quick": 1200, "thorough": 20000},
+            {"lane": "registry", "quick": 2000, "thorough": 30000},
         ],
         "trusted_base": [STDLIB, FSMODEL, "stack exhaustion and blocking system calls are runtime events the model cannot exhibit: the model shows the divergence (fuel) or the open of a non-regular file, the watched-subprocess lane shows the crash or hang (partial)"],
         "assumptions": ["C19_pack_terminates assumes PackNamesOK (every component of every path in the tree is a proper file name: non-empty, no slash, not '.' or '..' — what a real directory can contain; C19_cex_terminates_needs_names shows the model needs it) and an absolute start path; findings F25 (link cycle outside the tree), F26 (dereferenced directory containing itself) and F27 (dereferenced link to a fifo) are repaired in /repo and listed as fixed"],
